@@ -719,3 +719,127 @@ def merge_runs(a, b):
     a["stats"] = _merge_counts(a["stats"], b["stats"])
     a["clean_by_category"] = _merge_counts(a["clean_by_category"], b["clean_by_category"])
     return a
+
+
+# ------------------------------------------------------------------ check driver shared by the six modules
+
+def evaluate(cases_json):
+    """run concrete inputs through implementation + model + analysis"""
+    cs = run_one(cases_json)
+    return analyse_all(cs, {}), cs
+
+
+def shrink(pid, css, opts, budget_rounds=14):
+    """delta-debugging on the characters of the stylesheet: keep the shortest text on which the
+    same property still fails outside the known classes"""
+    def fails(texts):
+        res = []
+        cs = run_one([{"css": t, "opts": opts} for t in texts])
+        for c in cs:
+            d = analyse_all([c], {})
+            res.append(len(d["viol"].get(pid, [])) > 0)
+        return res
+
+    cur = css
+    n = 2
+    rounds = 0
+    while len(cur) >= 2 and rounds < budget_rounds:
+        rounds += 1
+        size = max(1, len(cur) // n)
+        cands = []
+        for i in range(0, len(cur), size):
+            cands.append(cur[:i] + cur[i + size:])
+        cands = [c for c in cands if c != cur][:48]
+        if not cands:
+            break
+        try:
+            r = fails(cands)
+        except Infra:
+            break
+        hit = [c for c, f in zip(cands, r) if f]
+        if hit:
+            cur = min(hit, key=len)
+            n = max(n - 1, 2)
+        else:
+            if size == 1:
+                break
+            n = min(len(cur), n * 2)
+    return cur
+
+
+def rerun_known(res, pid):
+    """re-run the witnesses of the known findings of this property; print KNOWN-FINDING lines"""
+    for f in known_findings().get("findings", []):
+        if not isinstance(f, dict) or f.get("property") != pid:
+            continue
+        w = f.get("witness", {})
+        d, cs = evaluate([{"css": w.get("css", ""), "opts": w.get("opts", {})}])
+        hits = d["known_hits"].get(pid, {})
+        still = bool(hits) or bool(d["viol"].get(pid))
+        if d["viol"].get(pid):
+            # the witness must stay inside its listed class; otherwise the class no longer covers it
+            res.violation("witness of known finding %s is no longer inside its class %r: %s" % (
+                f.get("id"), f.get("class"), d["viol"][pid][0]["what"]), {"witness": w, "finding": f.get("id")})
+        elif still:
+            res.known.append("%s %s [class: %s] witness %r -> %r" % (
+                f.get("id"), f.get("what"), f.get("class"), w.get("css"), unq(cs[0].impl[1][1:-1]) if len(cs[0].impl) > 1 else "?"))
+        else:
+            res.notes.setdefault("known_findings_not_reproduced", []).append(f.get("id"))
+            log("note: witness of %s no longer deviates (fixed?)" % f.get("id"))
+
+
+def css_check(res, pid, theorems, relevant_counters, rule):
+    ok, what = proof_phase(res, pid, theorems)
+    d = load_run(res)
+    agg = d["agg"]
+    n_viol = 0
+    for v in d["viol"].get(pid, [])[:3]:
+        n_viol += 1
+        small = v["css"]
+        try:
+            small = shrink(pid, v["css"], v["opts"])
+        except Exception as e:  # shrinking is best effort
+            log("shrink failed: %r" % e)
+        rep = dict(v)
+        rep["css_shrunk"] = small
+        rep["replay_cmd"] = "echo '<json {css, opts}>' | .cache/target/debug/verif-harness cssone | modelrun"
+        res.violation("%s on %r (options %s)" % (v["what"], small, json.dumps(v["opts"], ensure_ascii=False)), rep)
+    # model / implementation correspondence (the tie of the theorems to the code)
+    disagree = agg.get("model_disagree", 0) + agg.get("model_token_agree_only", 0)
+    res.notes["correspondence"] = {
+        "cases": agg.get("cases", 0), "byte_exact_agreement (text, source map, warnings)": agg.get("model_exact_agree", 0),
+        "text_agreement": agg.get("model_text_agree", 0), "token_level_only": agg.get("model_token_agree_only", 0),
+        "disagree": agg.get("model_disagree", 0), "harmless_drift (differs from model, conforms to spec)": agg.get("harmless_drift", 0),
+        "disagree_on_malformed_input": agg.get("malformed_disagree", 0), "impl_panics": agg.get("impl_panic", 0),
+        "model_out_of_fuel": agg.get("model_out_of_fuel", 0),
+    }
+    if agg.get("model_out_of_fuel", 0) or agg.get("model_spec_verdict_differs", 0):
+        res.violation("model ran out of fuel / model and implementation get different spec verdicts on %d inputs" % (
+            agg.get("model_out_of_fuel", 0) + agg.get("model_spec_verdict_differs", 0)),
+            {"obligation": "correspondence of coq/Model/Css.v with lib.rs"}, no_input=True)
+    if not ok:
+        res.violation(what, {"obligation": "Properties/%s.v" % pid}, no_input=(n_viol == 0))
+    rerun_known(res, pid)
+    res.cov["evaluations"] = agg.get("cases", 0)
+    res.cov["distinct_nontrivial"] = sum(agg.get(k, 0) for k in relevant_counters[:1])
+    res.cov["rule"] = rule
+    res.cov["samples"] = d["samples"]
+    res.cov["exhaustive"] = False
+    res.notes["counters"] = {k: agg.get(k, 0) for k in relevant_counters}
+    res.notes["well_formed_inputs"] = agg.get("wf", 0)
+    res.notes["well_formed_outside_known_classes (checked against the specification)"] = agg.get("wf_clean", 0)
+    res.notes["clean_by_category"] = d.get("clean_by_category", {})
+    res.notes["known_class_hits (failing inputs whose class flags include)"] = d["known_hits"].get(pid, {})
+    st = d.get("stats", {})
+    for k in ("token_kinds", "at_rules", "option_sets", "categories", "max_depth_hist", "features", "total_tokens"):
+        if k in st:
+            res.notes["input_" + k] = st[k]
+    res.notes["run_cached"] = d.get("cached", False)
+    res.notes["timing"] = d.get("timing", {})
+    res.assumptions += [
+        "cssparser 0.34 tokenizer is the oracle for both the input token tree and the re-tokenisation of outputs",
+        "number printing (dtoa 1.0.9 Grisu2-f32 + dtoa-short restrict_prec) and f32 arithmetic are transliterated in "
+        "coq/Model/CssNum.v and tied to the binaries only by differential testing (every numeric token of every case)",
+        "class_prefix_sign / import_sign values do not contain '*/' (they are pasted raw into a comment)",
+    ]
+    return d
